@@ -10,10 +10,8 @@ idx = {key(e): i for i, e in enumerate(main)}
 for fn in sorted(glob.glob(os.path.join(V, "known_findings.d", "*.json"))):
     pid = os.path.basename(fn)[:-5]
     ents = json.load(open(fn))
-    # entries of this property that came from an earlier fold and are no longer listed are dropped
-    keep = {key(e) for e in ents}
-    main = [e for e in main if e.get("property") != pid or key(e) in keep or e.get("_own")]
-    idx = {key(e): i for i, e in enumerate(main)}
+    # entries are only added or replaced, never dropped (a finding that stops reproducing is turned
+    # into a status=fixed entry by hand)
     for e in ents:
         if key(e) in idx:
             main[idx[key(e)]] = e
